@@ -12,7 +12,7 @@ def run(ck):
     try:
         ck.write_generated("BTreeCfg.lean", gen_btree.generate(REPO, ck.work))
     except Exception as e:
-        ck.machinery_error("translator gen_btree failed: %r" % (e,)); return
+        ck.translator_failed("translator gen_btree failed: %r" % (e,))
     if not ck.build_driver(): return
     if not ck.prove(["ZixModel.Properties.C01", "ZixModel.Properties.C01Remove", "ZixModel.Properties.C01History"]):
         ck.report_proof_failure("theorems about the B-tree model no longer build")
